@@ -48,6 +48,10 @@ func pathOf(v ssa.Value) string {
 		if v.Op == token.MUL {
 			return pathOf(v.X)
 		}
+	case *ssa.IndexAddr:
+		if b := pathOf(v.X); b != "" {
+			return b + "[]"
+		}
 	case *ssa.ChangeType:
 		return pathOf(v.X)
 	case *ssa.MakeInterface:
